@@ -151,6 +151,40 @@ CHECKS = {
        "the theorems is cross-checked with an independent Python evaluator, not proved.",
   technique="Lean 4 proof (first-seen renaming maps, limits) + correspondence on generated overflow tables (multi-character chains, >9999 residues, >99999 atoms, >62 chains)",
   ref="9/C10"),
+ "C04": dict(
+  text="Lean theorems (Props.C04) about an exact-rational model of find_stackings in which every decision is a polynomial sign condition: "
+       "stackings_eq_filter (the list = sort ∘ label ∘ filter of the defining predicate over all residue pairs, with the signed file-order "
+       "orientation of the centroid vector written out), stackings_once, stackings_sorted, stackings_lower_first, topology_label; over ℝ "
+       "the angle clauses are equivalent to their polynomial forms (angle_normals_iff, angle_vector_iff, distance_iff) and the rational "
+       "enclosures of cos²35°, cos²45° are PROVED to enclose (enclosures_hold, width ≤ 1e-15), giving model_sound / model_complete "
+       "(every real stacking is listed or flagged undecided). Bridges: thresholds 6 Å / 35° / 45°, base-atom tables, normal atoms.",
+  note="Float geometry (numpy), the KD-tree query and ordering by Python tuples are outside the model; agreement is demanded outside a "
+       "1e-6 band around each threshold (undecided cases counted). The statement's centroid vector is read as c_i − c_j with i before j "
+       "in file order (DESIGN §11). Residue keys assumed distinct; multi-model inputs with model=None not compared.",
+  technique="Lean 4 proof (definition = filter; ℝ-level angle equivalences; proved cosine enclosures) + exact-rational model vs find_stackings on corpus, motions and threshold-straddling placements",
+  ref="9/C04"),
+ "C17": dict(
+  text="Lean theorems (Props.C17) about an exact-rational model of find_clashes and the report of clashfinder.main: clashes_eq_filter "
+       "(list = filter of d² ≤ (r_a + r_b + mp)² under the five options), clashes_once, clash_symmetric, kd_radius_sufficient (the KD-tree "
+       "query radius covers every radius sum — decide over the regenerated radii), grid_shortcut_sound, residue_max_correct, "
+       "chain_max_correct (printed maxima = maxima over the listed clashes; depends on a bridge regenerated from the source), "
+       "csv_rows_eq_clashes, occupancy_literal / clashes_eq_spec.",
+  note="Float distance and the SciPy KD-tree are outside the model (undecided band 1e-6); occupancy sums in stdout compared with "
+       "tolerance 1e-9; metadata columns of the CSV come from the mmcif package.",
+  technique="Lean 4 proof (definition = filter, maxima, radius sufficiency by decide) + exact-rational model vs find_clashes for all 32 option sets, main() stdout and CSV",
+  ref="9/C17"),
+ "C08": dict(
+  text="Lean theorems (Props.C08) about a model of parser.py's reading pipeline (column slicer / mmCIF row decoder → duplicate filter → "
+       "clash filter → model selection → residue grouping), parameterised by switches regenerated from the source: "
+       "select_only_requested, select_default_first, dup_keeps_max_occupancy_first, clash_survivor, kept_is_sublist, no_atom_lost, "
+       "group_preserves_order_and_fields, parseAtomV1_fields; the whole statement C08_full holds for the repaired configuration "
+       "(full_of_fixed) and is proved FALSE for each missing switch (counter-examples by decide); present_code_verdict ties the verdict "
+       "to the configuration read from the current source.",
+  note="C08_full assumes the first model's records form a prefix of the table; parse∘format is proved for the slicer in general and for "
+       "the digit formatting on concrete records only; Python int()/float() modelled for plain decimals; the mmcif tokeniser is trusted "
+       "(the harness's own mmCIF emitter is validated against it on every document).",
+  technique="Lean 4 proof (pipeline stages, counter-examples for the unrepaired configurations) + correspondence on generated PDB/mmCIF tables (multi-model, altlocs, null markers) and corpus files",
+  ref="9/C08"),
 }
 
 NOT_YET = {}
